@@ -463,7 +463,8 @@ Proof. exact history_example. Qed.
    "... minus those hard-deleted for everyone or soft-deleted by THAT SAME USER ... another
    user's soft deletions hide nothing": the user of a request is the user it is executed as
    (msg.AsUser): the session's own user, or - for a root session only - the user named by
-   extra.obo.  Model: Sys/TopicOboC04.v.  A request is (obo, op); [dispatch_as_c04] is
+   extra.obo.  Model: Sys/TopicOboC04.v.  A request is [QReq obo op], or [QSubGet obo ...] for
+   {sub get="data del"}; [dispatch_as_c04] is
    Session.dispatch's choice of the acting user (403 for a non-root session naming a user, 400
    for a malformed name); an executed request is one [step] of the product model under the
    session map in which the session stands for the acting user (a root session = a family of
@@ -484,14 +485,14 @@ Print Assumptions c04_obo_dispatch.
 (* a session that is not root cannot act for anybody else: 403, no store call, nothing changed *)
 Theorem c04_obo_needs_root : forall sm roots f x ob o sid, op_sid o = Some sid ->
   has_obo_c04 ob = true -> is_root_c04 roots sid = false ->
-  ostep_c04 sm roots f x (ob, o) = Some (mkState (st x) (ca x) 0, [(sid, Ctrl 403 [])]).
+  ostep_c04 sm roots f x (QReq ob o) = Some (mkState (st x) (ca x) 0, [(sid, Ctrl 403 [])]).
 Proof. exact ostep_needs_root. Qed.
 Print Assumptions c04_obo_needs_root.
 
 (* the wrapper is conservative: a history without extra.obo and without root sessions runs
    exactly as the product model of the second part *)
 Theorem c04_obo_conservative : forall sm h x,
-  orun_c04 sm [] x (map (fun fo => (fst fo, (OboNone, snd fo))) h) = Some (run_i sm x h).
+  orun_c04 sm [] x (map (fun fo => (fst fo, QReq OboNone (snd fo))) h) = Some (run_i sm x h).
 Proof. exact orun_plain. Qed.
 Print Assumptions c04_obo_conservative.
 
@@ -513,7 +514,7 @@ Print Assumptions c04_obo_request_refines.
    from him only (c04_soft_hides_for_requester_only), hard iff asked and D in HIS mode *)
 Theorem c04_obo_delete_is_acting_users : forall sm roots s c n0 sid ob u req hard ou,
   attached c sid = true -> dispatch_as_c04 sm roots sid ob = inl u ->
-  oevent_c04 sm roots (mkState s (Some c) n0) (ob, ODelMsg sid req hard) ou =
+  oevent_c04 sm roots (mkState s (Some c) n0) (QReq ob (ODelMsg sid req hard)) ou =
   match head_frame ou with
   | Some (Ctrl code [(_, _)]) =>
     if code =? 200 then HDel u (hard && is_deleter (user_mode c u)) (req_ids (c_lastid c) req) else HNone
@@ -529,7 +530,7 @@ Print Assumptions c04_obo_delete_is_acting_users.
    whoever owns the session and whoever it is attached as *)
 Theorem c04_obo_query_runs_as_acting : forall sm roots f s c n0 sid ob u q, attached c sid = true ->
   dispatch_as_c04 sm roots sid ob = inl u ->
-  ostep_c04 sm roots f (mkState s (Some c) n0) (ob, op_of_query_c04 sid q) =
+  ostep_c04 sm roots f (mkState s (Some c) n0) (QReq ob (op_of_query_c04 sid q)) =
   Some (let h := handle_query_c04 f s c sid u q in (mkState (h_st h) (Some (h_ca h)) (h_n h), h_out h)).
 Proof. exact ostep_query. Qed.
 Print Assumptions c04_obo_query_runs_as_acting.
@@ -540,8 +541,8 @@ Theorem c04_obo_same_answer : forall sm roots f s c n0 sid1 ob1 sid2 ob2 u q,
   attached c sid1 = true -> attached c sid2 = true ->
   dispatch_as_c04 sm roots sid1 ob1 = inl u -> dispatch_as_c04 sm roots sid2 ob2 = inl u ->
   exists x' o1 o2,
-    ostep_c04 sm roots f (mkState s (Some c) n0) (ob1, op_of_query_c04 sid1 q) = Some (x', o1) /\
-    ostep_c04 sm roots f (mkState s (Some c) n0) (ob2, op_of_query_c04 sid2 q) = Some (x', o2) /\
+    ostep_c04 sm roots f (mkState s (Some c) n0) (QReq ob1 (op_of_query_c04 sid1 q)) = Some (x', o1) /\
+    ostep_c04 sm roots f (mkState s (Some c) n0) (QReq ob2 (op_of_query_c04 sid2 q)) = Some (x', o2) /\
     map snd o1 = map snd o2 /\ Forall (fun e => fst e = sid1) o1 /\ Forall (fun e => fst e = sid2) o2.
 Proof. exact obo_same_answer. Qed.
 Print Assumptions c04_obo_same_answer.
@@ -551,10 +552,40 @@ Print Assumptions c04_obo_same_answer.
 Theorem c04_obo_needs_attach : forall sm roots f s cx n0 sid ob u q,
   match cx with Some c => attached c sid = false | None => True end ->
   dispatch_as_c04 sm roots sid ob = inl u ->
-  ostep_c04 sm roots f (mkState s cx n0) (ob, op_of_query_c04 sid q) =
+  ostep_c04 sm roots f (mkState s cx n0) (QReq ob (op_of_query_c04 sid q)) =
   Some (mkState s cx 0, [(sid, Ctrl (match q with QDelMsg _ _ => 409 | _ => 403 end) [])]).
 Proof. exact ostep_query_detached. Qed.
 Print Assumptions c04_obo_needs_attach.
+
+(* ---- {sub get="data del"} ---- *)
+
+(* the subscription part, then - unless it was refused - replyGetData and replyGetDel for the
+   SAME acting user ([sub_get_c04], the model of handleSubscription) *)
+Theorem c04_obo_sub_get_runs_as_acting : forall sm roots f x ob sid u want bkg gd gl,
+  dispatch_as_c04 sm roots sid ob = inl u ->
+  (is_root_c04 roots sid = true -> has_obo_c04 ob = true) ->
+  ostep_c04 sm roots f x (QSubGet ob sid want bkg gd gl) =
+  Some (sub_get_c04 (sm_as_c04 sm sid u) f x sid u want bkg gd gl).
+Proof. exact ostep_sub_get. Qed.
+Print Assumptions c04_obo_sub_get_runs_as_acting.
+
+(* without store faults its frames are the subscription reply followed by what {get data} and
+   {get del} from the now attached session answer for that user: c04_obo_get_data_exact /
+   c04_obo_get_del_exact / c04_obo_same_answer apply to them *)
+Theorem c04_obo_sub_get_as_requests : forall sm' x sid want bkg a b l a' b' l' x1 o1 c,
+  step_i sm' NoFault x (OSub sid want bkg) = (x1, o1) -> sub_accepted_c04 sid o1 = true ->
+  ca x1 = Some c -> attached c sid = true ->
+  let r := sub_get_c04 sm' NoFault x sid (sess_uid sm' sid) want bkg (Some (a, b, l)) (Some (a', b', l')) in
+  snd r = o1 ++ snd (step_i sm' NoFault x1 (OGetData sid a b l)) ++ snd (step_i sm' NoFault x1 (OGetDel sid a' b' l')) /\
+  st (fst r) = st x1 /\ ca (fst r) = ca x1.
+Proof. exact sub_get_as_requests. Qed.
+Print Assumptions c04_obo_sub_get_as_requests.
+
+Theorem c04_obo_sub_get_refused : forall sm' f x sid u want bkg gd gl,
+  sub_accepted_c04 sid (snd (step_i sm' f x (OSub sid want bkg))) = false ->
+  sub_get_c04 sm' f x sid u want bkg gd gl = step_i sm' f x (OSub sid want bkg).
+Proof. exact sub_get_refused. Qed.
+Print Assumptions c04_obo_sub_get_refused.
 
 (* ---- {get data} / {get del} after ANY history with obo requests (any faults) ---- *)
 
@@ -564,7 +595,7 @@ Print Assumptions c04_obo_needs_attach.
 Theorem c04_obo_get_data_exact : forall sm roots s0 h x c sid ob u since before limit,
   hist_init s0 -> oreach_c04 sm roots s0 h = Some x -> ca x = Some c -> attached c sid = true ->
   dispatch_as_c04 sm roots sid ob = inl u -> is_reader (user_mode c u) = true ->
-  exists x' o, ostep_c04 sm roots NoFault x (ob, OGetData sid since before limit) = Some (x', o) /\
+  exists x' o, ostep_c04 sm roots NoFault x (QReq ob (OGetData sid since before limit)) = Some (x', o) /\
   st x' = st x /\
   let fr := data_of o in
   let lim := Z.to_nat (eff_limit max_msg_results limit) in
@@ -581,7 +612,7 @@ Theorem c04_obo_get_del_exact : forall sm roots s0 h x c sid ob u since before l
   hist_init s0 -> oreach_c04 sm roots s0 h = Some x -> ca x = Some c -> attached c sid = true ->
   dispatch_as_c04 sm roots sid ob = inl u -> is_reader (user_mode c u) = true ->
   (length (filter (del_sel u since before) (dellog (st x))) <= Z.to_nat (eff_limit max_results limit))%nat ->
-  exists x' o, ostep_c04 sm roots NoFault x (ob, OGetDel sid since before limit) = Some (x', o) /\
+  exists x' o, ostep_c04 sm roots NoFault x (QReq ob (OGetDel sid since before limit)) = Some (x', o) /\
   st x' = st x /\
   ((o = [(sid, Ctrl 204 [(P_what, 3)])] /\ forall y, logged_sel (st x) u since before y = false) \/
    (exists maxid rs, o = [(sid, MetaDel maxid rs)] /\
@@ -594,9 +625,9 @@ Print Assumptions c04_obo_get_del_exact.
 (* the ACTING user has no R: nothing is shown, whatever the session's own user may read *)
 Theorem c04_obo_needs_read : forall sm roots f s c n0 sid ob u since before limit, attached c sid = true ->
   dispatch_as_c04 sm roots sid ob = inl u -> is_reader (user_mode c u) = false ->
-  ostep_c04 sm roots f (mkState s (Some c) n0) (ob, OGetData sid since before limit) =
+  ostep_c04 sm roots f (mkState s (Some c) n0) (QReq ob (OGetData sid since before limit)) =
     Some (mkState s (Some c) 0, [(sid, Ctrl 204 [(P_what, 1)])]) /\
-  ostep_c04 sm roots f (mkState s (Some c) n0) (ob, OGetDel sid since before limit) =
+  ostep_c04 sm roots f (mkState s (Some c) n0) (QReq ob (OGetDel sid since before limit)) =
     Some (mkState s (Some c) 0, [(sid, Ctrl 204 [(P_what, 3)])]).
 Proof. exact obo_query_needs_read. Qed.
 Print Assumptions c04_obo_needs_read.
@@ -644,3 +675,13 @@ Proof. exact obo_history_example. Qed.
 
 Example c04_ex_obo_history_ok : ohist_ok_c04 ex_obo_sm [1%N] ex_obo_hist.
 Proof. exact obo_history_example_ok. Qed.
+
+(* the same history continued with {sub get="data del"} by the root session on behalf of user 2 *)
+Example c04_ex_obo_sub_get :
+  exists r, orun_c04 ex_obo_sm [1%N] (mkState ex_obo_s0 None 0) ex_obo_hist2 = Some r /\
+  skipn 21 (snd r) =
+    [[(1%N, Ctrl 200 [])];
+     [(1%N, Ctrl 200 []); (1%N, Data 3 3 9); (1%N, Data 2 2 8); (1%N, Ctrl 208 [(P_what, 1); (P_count, 2)]);
+      (1%N, MetaDel 3 [(1, 0); (4, 6)])];
+     [(1%N, Ctrl 304 [])]; [(2%N, Ctrl 403 [])]].
+Proof. exact obo_sub_get_example. Qed.
